@@ -416,10 +416,143 @@ pub fn core(_tier: Tier) -> Vec<Arc<dyn Scenario>> {
     ]
 }
 
+// ---- reads on an endpoint that lost its connection to the owner ----
+
+/// B warms its read cache (or not), loses its connection, the owner's endpoint commits a new value,
+/// and B reads again: it must get an error (it cannot know the current value), never the old value.
+pub struct StaleAfterCutScenario {
+    pub warm: bool,
+    /// B still holds its first read guard while the connection is cut
+    pub hold_during_cut: bool,
+}
+
+#[derive(Default)]
+struct SObs {
+    err: Option<String>,
+    first: Option<String>,
+    write: Option<String>,
+    later_reads: Vec<String>,
+}
+
+impl Scenario for StaleAfterCutScenario {
+    fn id(&self) -> String {
+        format!("c17-cut/warm{}/hold{}", self.warm as u8, self.hold_during_cut as u8)
+    }
+
+    fn start(&self, env: Env) -> (BoxFuture<'static, ()>, Judge) {
+        let obs = shared(SObs::default());
+        let o2 = obs.clone();
+        let (warm, hold) = (self.warm, self.hold_during_cut);
+        let root = async move {
+            env.explore(false);
+            let link = LinkOpts { capacity: 2, deliver_cap: 2, eof_on_drop: true };
+            let ab = base_pair::<RwLock<LV>, RwLock<LV>, (), ()>(&env, carrier_cfg(), carrier_cfg(), link).await;
+            let ((mut a_tx, _a_rx, k1, k2), (_b_tx, mut b_rx, k3, k4)) = match ab {
+                Ok(x) => x,
+                Err(e) => {
+                    o2.lock().unwrap().err = Some(e);
+                    return;
+                }
+            };
+            let owner = Owner::<LV, C>::new(LV(1));
+            let local = owner.rw_lock();
+            let (s, r) = tokio::join!(a_tx.send(owner.rw_lock()), b_rx.recv());
+            let remote = match (s, r) {
+                (Ok(()), Ok(Some(l))) => l,
+                _ => {
+                    o2.lock().unwrap().err = Some("ship lock".into());
+                    return;
+                }
+            };
+            env.quiesce().await;
+            let mut held = None;
+            if warm {
+                match tokio::time::timeout(Duration::from_secs(20), remote.read()).await {
+                    Ok(Ok(g)) => {
+                        o2.lock().unwrap().first = Some(format!("Ok({})", g.0));
+                        if hold {
+                            held = Some(g);
+                        }
+                    }
+                    Ok(Err(e)) => o2.lock().unwrap().first = Some(format!("Err({e:?})")),
+                    Err(_) => o2.lock().unwrap().first = Some("hang".into()),
+                }
+                env.quiesce().await;
+            }
+            env.dir(0, 0).cut();
+            env.dir(0, 1).cut();
+            env.quiesce().await;
+            drop(held);
+            env.quiesce().await;
+            // the owner's endpoint moves on
+            let w = tokio::time::timeout(Duration::from_secs(30), async {
+                let mut g = local.write().await.map_err(|e| format!("{e:?}"))?;
+                *g = LV(7);
+                g.commit().await.map_err(|e| format!("{e:?}"))
+            })
+            .await;
+            o2.lock().unwrap().write = Some(match w {
+                Err(_) => "hang".into(),
+                Ok(Ok(())) => "committed".into(),
+                Ok(Err(e)) => format!("err:{e}"),
+            });
+            env.quiesce().await;
+            for _ in 0..2 {
+                let r = tokio::time::timeout(Duration::from_secs(30), remote.read()).await;
+                o2.lock().unwrap().later_reads.push(match r {
+                    Err(_) => "hang".into(),
+                    Ok(Ok(g)) => format!("Ok({})", g.0),
+                    Ok(Err(_)) => "err".into(),
+                });
+                env.quiesce().await;
+            }
+            drop((remote, local, owner, a_tx, b_rx, k1, k2, k3, k4));
+        };
+        let judge: Judge = Box::new(move |out: &Outcome| {
+            let o = obs.lock().unwrap();
+            let mut v = Verdict::default();
+            v.findings.extend(panic_findings(out, "C17"));
+            if let Some(e) = &o.err {
+                v.fail("C17", "setup-failed", e.clone());
+            } else if out.ending != Ending::Completed {
+                v.fail("C17", "lock-scenario-stuck", format!("{:?}", out.ending));
+            } else {
+                let ctx = format!("first read {:?}, write on the owner's endpoint after the cut {:?}, reads on the cut-off endpoint afterwards {:?}", o.first, o.write, o.later_reads);
+                if warm && o.first.as_deref() != Some("Ok(1)") {
+                    v.fail("C17", "lock-operation-failed", ctx.clone());
+                }
+                if o.write.as_deref() != Some("committed") {
+                    v.fail("C17", "write-blocked-by-lost-holder", ctx.clone());
+                }
+                for r in &o.later_reads {
+                    match r.as_str() {
+                        "err" | "Ok(7)" => {}
+                        "hang" => v.fail("C17", "request-never-completes", ctx.clone()),
+                        _ => v.fail("C17", "stale-read-after-connection-loss", ctx.clone()),
+                    }
+                }
+            }
+            v.outcome = format!("{:?}|{:?}|{:?}", o.first, o.write, o.later_reads);
+            v.nontrivial = true;
+            v
+        });
+        (Box::pin(root), judge)
+    }
+}
+
+pub fn cut_scenarios() -> Vec<Arc<dyn Scenario>> {
+    vec![
+        Arc::new(StaleAfterCutScenario { warm: false, hold_during_cut: false }),
+        Arc::new(StaleAfterCutScenario { warm: true, hold_during_cut: false }),
+        Arc::new(StaleAfterCutScenario { warm: true, hold_during_cut: true }),
+    ]
+}
+
 pub fn all_scenarios(tier: Tier) -> Vec<Arc<dyn Scenario>> {
     let mut v = grid(tier);
     v.extend(sweep(tier));
     v.extend(core(tier));
+    v.extend(cut_scenarios());
     v
 }
 
@@ -428,7 +561,9 @@ pub fn run(tier: Tier, seed: u64) -> i32 {
     let known = known_sigs("C17");
     let q = tier == Tier::Quick;
     let p0 = Params { max_dev: if q { 0 } else { 2 }, seeds: vec![seed, seed + 1], time_limit: Duration::from_secs(if q { 10 } else { 900 }), ..Default::default() };
-    rep.add("handle placements x operation pairs (cold and warm caches), 3-4 handles, loss of a holder", explore("C17", grid(tier), p0, &known));
+    rep.add("handle placements x operation pairs (cold and warm caches), 3-4 handles, loss of a holder", explore("C17", grid(tier), p0.clone(), &known));
+    let pc = Params { max_dev: if q { 1 } else { 2 }, seeds: vec![seed], time_limit: Duration::from_secs(if q { 8 } else { 300 }), ..Default::default() };
+    rep.add("reads on an endpoint that lost its connection after the owner's endpoint committed a new value (cold / warm cache, guard held across the cut)", explore("C17", cut_scenarios(), pc, &known));
     let ps = Params { max_dev: if q { 1 } else { 2 }, seeds: vec![seed], time_limit: Duration::from_secs(if q { 20 } else { 900 }), ..Default::default() };
     rep.add("timing sweep: write shifted by k steps against a cold/warm read on another handle, with one further deviation", explore("C17", sweep(tier), ps, &known));
     let p = Params { max_dev: if q { 2 } else { 4 }, preempt_cap: 8, seeds: vec![seed], time_limit: Duration::from_secs(if q { 15 } else { 1200 }), ..Default::default() };
